@@ -23,8 +23,11 @@ use vcore::report::{Ctx, panic_msg};
 /// One representative of every lexical class of the three parsers, including every class of
 /// white space they distinguish (blank, tab, LF, CR, VT, FF, NEL, line separator, no-break space,
 /// left-to-right mark).
-pub const ALPHA: [&str; 37] = [
+pub const ALPHA: [&str; 39] = [
     "%", "{", "}", "[", "]", "(", ")", ",", ":", "!", "\"", "'", "\\", "/", "*", "|", ";", "<", ">", "-", "+", "a", "0", "9", " ", "\n", "é", "☃", "\t", "\r", "\u{b}", "\u{c}", "\u{85}", "\u{2028}", "\u{a0}", "\u{200e}", "=",
+    // letters whose case mapping changes their length in bytes (they match case-insensitive ASCII
+    // classes): KELVIN SIGN (3 bytes, lower-case 'k') and LATIN SMALL LETTER LONG S (2 bytes, upper-case 'S')
+    "\u{212a}", "\u{17f}",
 ];
 
 const EPS: [&str; 9] = [
